@@ -177,8 +177,9 @@ def subprocess_validation(run, t):
         open(os.path.join(d, "m.yaml"), "w").write(yaml.safe_dump({"macros": [{"name": "@m", "pattern": "call"}]}))
         for k, v in rules.items():
             open(os.path.join(d, k + ".yaml"), "w").write(yaml.safe_dump(v, sort_keys=False))
-        for allm, addr, rule in combos:
-            argv = [ch.PY, "-m", "jasm.main", "-p", rule + ".yaml", "-s", "in.s"] + (["--all-matches"] if allm else []) + (["--return_only_address"] if addr else []) + (["--macros", "m.yaml"] if rule == "extra" else [])
+        for n_combo, (allm, addr, rule) in enumerate(combos):
+            extra_flags = [[], ["--debug"], ["--info"], ["--enable_logging_to_terminal"]][n_combo % 4]
+            argv = [ch.PY, "-m", "jasm.main", "-p", rule + ".yaml", "-s", "in.s"] + extra_flags + (["--all-matches"] if allm else []) + (["--return_only_address"] if addr else []) + (["--macros", "m.yaml"] if rule == "extra" else [])
             p = subprocess.run(argv, cwd=d, env=env, capture_output=True, text=True, timeout=120)
             logged = [l.split("Matched address: ", 1)[1] for l in p.stderr.splitlines() if "Matched address: " in l]
             found = any("RESULT: Pattern found" in l for l in p.stderr.splitlines())
